@@ -76,6 +76,16 @@ pub fn sets() -> Vec<TemplateSet> {
             datas: vec![V::obj(&[("name", V::s("ok"))]), V::obj(&[("name", V::s("broken"))]), V::obj(&[("name", V::s("missing"))])],
         },
         TemplateSet {
+            name: "partial names with and without the .liquid extension",
+            partials: p(&[("card.liquid", "[card {{ v }}{% cycle 'x', 'y' %}]"), ("row", "ROW"), ("row.liquid", "ROWL")]),
+            templates: vec![
+                "{% render 'card', v: v %}|{% render 'row' %}",
+                "<{% include 'card' %}>",
+                "{% include 'row.liquid' %}|{% include 'row' %}|{% include 'card.liquid' %}",
+            ],
+            datas: vec![V::obj(&[("v", V::Int(1))]), V::obj(&[("v", V::s("two"))])],
+        },
+        TemplateSet {
             name: "tablerow / forloop / nested stateful",
             partials: p(&[("row", "{% tablerow i in a cols:2 %}{{ i }}{% cycle 'o', 'e' %}{% endtablerow %}")]),
             templates: vec![
